@@ -171,17 +171,39 @@ def install_cache_probes():
 
 # ------------------------------------------------------------------------------------------------
 
-def _mk_spectrum(seed, shape, maskfrac=0.0, folded=False, pop_ids=None, scale=10.0, integer=False):
+def _mk_spectrum(seed, shape, maskfrac=0.0, folded=False, pop_ids=None, scale=10.0, integer=False, corners=True):
     import dadi
     rs = np.random.RandomState(seed)
     data = rs.gamma(1.5, scale, size=tuple(shape))
     if integer:
         data = np.floor(data)
     mask = rs.random_sample(tuple(shape)) < maskfrac
-    fs = dadi.Spectrum(data, mask=mask, pop_ids=pop_ids)
+    fs = dadi.Spectrum(data, mask=mask, pop_ids=pop_ids, mask_corners=bool(corners))
     if folded:
         fs = fs.fold()
     return fs
+
+
+def _asetitem(arr, i, v):
+    """a caller editing an array it was handed (its own grid, its own density) in place"""
+    arr.flat[i % arr.size] = v
+    return arr
+
+
+def _demes_output_twice(pts, f, T1, T2, Nref):
+    """a native two-population model with an admixture pulse, then the demes export asked for twice in a row: exporting is
+    a read of the recorded event log, so both exports must agree"""
+    import dadi
+    xx = dadi.Numerics.default_grid(pts)
+    phi = dadi.PhiManip.phi_1D(xx)
+    phi = dadi.PhiManip.phi_1D_to_2D(xx, phi)
+    phi = dadi.Integration.two_pops(phi, xx, T1, 1.0, 2.0, m12=1.0)
+    phi = dadi.PhiManip.phi_2D_admix_1_into_2(phi, f, xx, xx)
+    phi = dadi.Integration.two_pops(phi, xx, T2, 1.0, 2.0)
+    g1 = dadi.Demes.output(Nref=Nref)
+    g2 = dadi.Demes.output(Nref=Nref)
+    d1, d2 = g1.asdict(), g2.asdict()
+    return {'ok': d1 == d2, 'what': 'Demes.output twice in a row', 'n_demes': len(d1.get('demes', [])), 'n_pulses': len(d1.get('pulses', []))}
 
 
 def _grid_cumsum(pts):
@@ -367,6 +389,9 @@ def _load():
     reg('LP.lowpass_from_dd', _lowpass_from_dd, group='lowpass')
     reg('optimize_grid', _optimize_grid, group='opthelp')
     # ---- demes
+    reg('ORACLE.demes_output_twice', _demes_output_twice, group='demes')
+    reg('cuda_enabled', lambda toggle=None: dadi.cuda_enabled(toggle), group='integrate')
+    reg('A.setitem', _asetitem, inplace=(0,), group='make')
     reg('from_demes', _from_demes, group='demes')
     # ---- interference (E1, E4): results never compared
     reg('E1.churn', _churn, no_compare=True, group='interference')
